@@ -1,5 +1,6 @@
 import Afkak.Wire.Crc
 import Afkak.Wire.Version
+import Afkak.Wire.Xerial
 import Afkak.Monitor.C04
 import Afkak.Monitor.C04Total
 import Afkak.Monitor.C05
@@ -688,6 +689,13 @@ def step (s : St) (line : String) : St × List String :=
         (s, optRes (fun f => showR ((relativeUnpack f d cur).map (fun (vs, c) => .list [vInts vs, .int c]))) (fmtOf f))
       | "runpackn", [f, .int n, .bytes d, .int cur] =>
         (s, optRes (fun f => showR ((relativeUnpackN f n d cur).map (fun (vs, c) => .list [vInts vs, .int c]))) (fmtOf f))
+      -- afkak.codec.snappy_decode / snappy_encode with a stub `snappy` module (decompress = compress = identity);
+      -- `fuel` = the stub's call budget + 1 (the real stub raises on call number budget + 1)
+      | "xerial", [.bytes d, .int fuel] => (s, showR ((snappyDecode (fun b => .ok b) fuel.toNat d).map .bytes))
+      | "xerial-enc", [.list cs] =>
+        (match cs.mapM (fun v => match v with | .bytes b => some b | _ => none) with
+         | some chunks => (s, ["ok " ++ (V.bytes (xerialEncode id chunks)).render])
+         | none => (s, ["bad-op"]))
       | "rsb", [.bytes d, .int cur] => (s, showR ((readShortBytes d cur).map (fun (b, c) => .list [optBytes b, .int c])))
       | "ris", [.bytes d, .int cur] => (s, showR ((readIntString d cur).map (fun (b, c) => .list [optBytes b, .int c])))
       | "rsa", [.bytes d, .int cur] => (s, showR ((readShortAscii d cur).map (fun (b, c) => .list [.bytes b, .int c])))
